@@ -64,6 +64,16 @@ static void h11_body(int t) { static const char *const d[3] = { "aaa", "abarth",
 static void h12_prep(void) { obj_setup(0, 1, 1); obj_setup(1, 0, 1); obj_setup(2, 3, 1); OBJ[0].allow_tld = OBJ[1].allow_tld = OBJ[2].allow_tld = 0; }
 static void h12_body(int t) { static const char *const a[3] = { "u@h.aaa", "u@h.abarth", "u@example.org" }; do_email(t, a[t]); do_email(t, a[t]); }
 
+/* H13: the (start,end) validators with the end pointer in the MIDDLE of one shared buffer (an address cut out of a longer line) */
+static char SHARED3[96];
+static void h13_prep(void) { strcpy(SHARED3, "<ann.b@\xd0\xb6.wikipedia.org> [IPv6:::1.2.3.4], next"); add_region(SHARED3, sizeof SHARED3); }
+static void h13_body(int t) {
+    const char *s = SHARED3; int ir = 0; (void)t;
+    int a = is_6531_local(s + 1, s + 6), b = is_utf8_domain(&ir, s + 7, s + 23, false), c = is_ascii_domain(s + 10, s + 23), d = is_special_domain(s + 10, s + 23);
+    int e = 0 /* no TLD table walk here: it would square to 10^7 states */, f = is_ipv6(s + 31, s + 41), g = is_ipv4(s + 34, s + 41), h = is_822_local(s + 1, s + 6);
+    logf_(t, "[%d %d/%d %d %d %d %d %d %d]", a, b, ir, c, d, e, f, g, h);
+}
+
 static harness_t H[] = {
     { "H1-two-6531-idn-validations", 2, h1_prep, h1_body, free_objs },
     { "H2-6531-vs-822", 2, h2_prep, h2_body, free_objs },
@@ -77,6 +87,7 @@ static harness_t H[] = {
     { "H10-two-ops-per-thread-with-resetup", 2, h10_prep, h10_body, free_objs },
     { "H11-same-tld-lookup-twice-per-thread", 2, h3_prep, h11_body, NULL },
     { "H12-same-address-twice-per-thread-different-classes", 2, h12_prep, h12_body, free_objs },
+    { "H13-part-validators-with-mid-buffer-end-pointers", 2, h13_prep, h13_body, NULL },
     { "T1-three-threads-reserved-names", 3, h3_prep, h3_body, NULL },
     { "T2-three-threads-is_tld", 3, h3_prep, h4_body, NULL },
     { "T3-three-threads-6531-822-5322", 3, h2_prep, h2_body, free_objs },
